@@ -21,6 +21,7 @@ from . import common as K
 from . import rw
 from .c01 import _build_single
 
+TECHNIQUE = "contract-based verification of aliasing freedom after symbolically executed clone()/constructors (complete per class); mutator differential as labelled bounded stand-in"
 LEVEL = "other"
 LEVEL_TEXT = (
     "Mixed. (a) Structural, complete per class: after the real constructors, Module.clone() (symbolically executed with symbolic state) and "
